@@ -5,8 +5,11 @@
   run_bias.py search <seed> <budget>
 
 A case is a JSON-able dict
-  {"y": [...], "models": [[...], ...], "two_d": bool, "w": None | [...], "functional": str, "level": float,
+  {"y": [...], "models": [[...], ...], "two_d": bool, "names": None | [column names of a pl.DataFrame y_pred],
+   "w": None | [...], "functional": str, "level": float,
    "feat": None | <run_binning case dict (ftype, values, n_bins, method, ...)>}
+Rows of the result are matched BY the label in the `model` column: block j handed to the comparator /
+judge = the rows labelled with the name of input column j.
 """
 import itertools
 import json
@@ -40,7 +43,9 @@ def call_impl(d, perm=None):
     idx = list(range(n)) if perm is None else perm
     y = np.array([d["y"][i] for i in idx], dtype=float)
     cols = [[m[i] for i in idx] for m in d["models"]]
-    if len(cols) == 1 and not d.get("two_d"):
+    if d.get("names"):
+        z = pl.DataFrame({nm: pl.Series(c, dtype=pl.Float64) for nm, c in zip(d["names"], cols)})
+    elif len(cols) == 1 and not d.get("two_d"):
         z = np.array(cols[0], dtype=float)
     else:
         z = np.array(cols, dtype=float).T
@@ -56,30 +61,52 @@ def call_impl(d, perm=None):
     return compute_bias(y_obs=y, y_pred=z, feature=feature, weights=w, **kw)
 
 
+def expected_labels(d):
+    """the documented `model` labels, in input column order; None when there is no model column"""
+    if d.get("names"):
+        return list(d["names"])
+    if len(d["models"]) == 1 and not d.get("two_d"):
+        return None
+    return [str(j) for j in range(len(d["models"]))]
+
+
 def df_tables(d, df):
-    """-> per model: list of rows (label, mean, count, weights, stderr, p)"""
-    nm = len(d["models"])
-    has_model = "model" in df.columns
+    """-> (per input column j: the rows LABELLED with column j's name, as
+           (label, mean, count, weights, stderr, p); labels in the order the blocks appear)
+       or (None, labels) when the labels are not a permutation of the column names"""
     fcol = None
     for c in df.columns:
-        if c not in ("model", "bias_mean", "bias_count", "bias_weights", "bias_stderr", "p_value"):
+        if c not in ("model", "model_", "bias_mean", "bias_count", "bias_weights", "bias_stderr", "p_value"):
             fcol = c
     rows = df.to_dicts()
-    out = []
-    if has_model:
-        order = []
-        for r in rows:
-            if r["model"] not in order:
-                order.append(r["model"])
-        for mname in order:
-            out.append([r for r in rows if r["model"] == mname])
-    else:
-        out.append(rows)
-    res = []
-    for tab in out:
-        res.append([(None if fcol is None else r[fcol], float(r["bias_mean"]), int(r["bias_count"]),
-                     float(r["bias_weights"]), float(r["bias_stderr"]), float(r["p_value"])) for r in tab])
-    return res, nm
+    exp = expected_labels(d)
+    mcol = "model" if "model" in df.columns and (fcol != "model") else ("model_" if "model_" in df.columns else None)
+
+    def conv(tab):
+        return [(None if fcol is None else r[fcol], float(r["bias_mean"]), int(r["bias_count"]),
+                 float(r["bias_weights"]), float(r["bias_stderr"]), float(r["p_value"])) for r in tab]
+    if exp is None:
+        if mcol is not None:
+            return None, ["<unexpected model column>"]
+        return [conv(rows)], None
+    if mcol is None:
+        return None, ["<no model column>"]
+    order = []
+    for r in rows:
+        if r[mcol] not in order:
+            order.append(r[mcol])
+    if sorted(order) != sorted(exp) or len(set(exp)) != len(exp):
+        return None, order
+    # blocks must be contiguous
+    seen_done, cur = set(), None
+    for r in rows:
+        if r[mcol] != cur:
+            if r[mcol] in seen_done:
+                return None, order + ["<interleaved>"]
+            if cur is not None:
+                seen_done.add(cur)
+            cur = r[mcol]
+    return [conv([r for r in rows if r[mcol] == name]) for name in exp], order
 
 
 def run_impl(d):
@@ -87,8 +114,10 @@ def run_impl(d):
         df = call_impl(d)
     except Exception as e:  # noqa: BLE001
         return ("err", type(e).__name__, str(e)[:160])
-    tabs, _ = df_tables(d, df)
-    return ("ok", tabs)
+    tabs, order = df_tables(d, df)
+    if tabs is None:
+        return ("badlabels", order)
+    return ("ok", tabs, order)
 
 
 # ------------------------------------------------------------------ exact recomputation
@@ -206,7 +235,9 @@ def optq(v):
 
 def coq_case(d, obs, exact):
     """exact: per model list of (label, stat) from the harness' own recomputation, or None"""
-    if obs[0] == "err":
+    if obs[0] == "badlabels":
+        o = "OBOther"          # the `model` labels are not the column names: never agrees
+    elif obs[0] == "err":
         o = rb.ERR_COQ.get(obs[1], "OBOther").replace("OErr", "OBErr")
     elif exact == "nan":
         o = "OBNanEdges"
@@ -256,7 +287,11 @@ def _judge_case(d, obs=None, deep=True):
         return [f"feature not accepted: {ft} column raised {obs[1]}: {obs[2]}"]
     if args_bad:
         return ["invalid arguments accepted"]
+    if obs[0] == "badlabels":
+        return [f"model labels {obs[1]} are not the column names {expected_labels(d)}"]
     bad = []
+    if obs[2] is not None and obs[2] != expected_labels(d):
+        bad.append(f"model blocks in order {obs[2]}, documented order is the input column order {expected_labels(d)}")
     try:
         groups = group_rows(d)
     except Exception as e:  # noqa: BLE001
@@ -268,30 +303,32 @@ def _judge_case(d, obs=None, deep=True):
     ws = [Fraction(1)] * n if d["w"] is None else [Fraction(w) for w in d["w"]]
     tw = sum(ws)
     if len(obs[1]) != len(d["models"]):
-        return [f"{len(obs[1])} model blocks for {len(d['models'])} models"]
+        return bad + [f"{len(obs[1])} model blocks for {len(d['models'])} models"]
     for mi, (tab, ex) in enumerate(zip(obs[1], exact)):
         if len(tab) != len(ex):
             bad.append(f"{len(tab)} output rows for {len(ex)} groups")
             continue
+        mlab = "" if expected_labels(d) is None else f" [rows labelled model={expected_labels(d)[mi]!r}]"
         for r, (lab, st) in zip(tab, ex):
             label, mean, cnt, wts, se, p = r
+            gl = f"{lab!r}{mlab}"
             if d["feat"] is not None and (lab is None) != (label is None):
                 bad.append("null group misplaced")
             if d["feat"] is not None and rb.is_string_type(d["feat"]["ftype"]) and lab is not None and str(label) != lab:
                 bad.append(f"row label {label!r} where group {lab!r} is expected (order)")
             if cnt != st["count"]:
-                bad.append(f"bias_count {cnt} != {st['count']} rows of group {lab!r}")
+                bad.append(f"bias_count {cnt} != {st['count']} rows of group {gl}")
             if not close(float(st["weights"]), wts):
-                bad.append(f"bias_weights {wts} != {float(st['weights'])} of group {lab!r}")
+                bad.append(f"bias_weights {wts} != {float(st['weights'])} of group {gl}")
             if not st["defined"]:
                 continue
             if not close(float(st["mean"]), mean):
-                bad.append(f"bias_mean {mean} != definition {float(st['mean'])} on group {lab!r}")
+                bad.append(f"bias_mean {mean} != definition {float(st['mean'])} on group {gl}")
             if math.isnan(se) or not close(float(st["se2"]), se * se):
-                bad.append(f"bias_stderr^2 {se * se} != definition {float(st['se2'])} on group {lab!r}")
+                bad.append(f"bias_stderr^2 {se * se} != definition {float(st['se2'])} on group {gl}")
             ep = expected_p(st["p"])
             if not (close(ep, p) or (st["p"][0] == "zero" and abs(p) < 1e-9)):
-                bad.append(f"p_value {p} != 2*stdtr(count-1, -|t|) = {ep} on group {lab!r}")
+                bad.append(f"p_value {p} != 2*stdtr(count-1, -|t|) = {ep} on group {gl}")
         # conservation
         if sum(r[2] for r in tab) != n:
             bad.append(f"counts sum to {sum(r[2] for r in tab)} != {n} rows")
@@ -323,7 +360,7 @@ def _judge_case(d, obs=None, deep=True):
             rng.shuffle(perm)
             try:
                 tabs, _ = df_tables(d, call_impl(d, perm))
-                if not _same(obs, ("ok", tabs), exact_eq=False):
+                if tabs is None or not _same(obs, ("ok", tabs), exact_eq=False):
                     bad.append(f"result depends on row order (permutation {perm})")
                     break
             except Exception as e:  # noqa: BLE001
@@ -370,6 +407,9 @@ DYADIC_LEVELS = [0.125, 0.25, 0.5, 0.75, 0.875]
 DECIMAL_LEVELS = [0.1, 0.3, 0.7, 0.9]
 
 
+MODEL_NAMES = ["zeta", "alpha", "mid", "Beta", "m10", "m2", "model_b", "model", "x"]
+
+
 def gen_case(rng, nmax, malformed=False):
     r = rng.random()
     if r < 0.12:
@@ -390,6 +430,8 @@ def gen_case(rng, nmax, malformed=False):
         return [float(rng.randrange(0, 2)) for _ in range(n)]
     y = vals()
     nm = rng.choice([1, 1, 1, 2, 3])
+    if n <= 6 and rng.random() < 0.06:
+        nm = rng.choice([11, 12])          # unnamed columns "10", "11" sort before "2"
     models = []
     for _ in range(nm):
         if rng.random() < 0.15:
@@ -404,7 +446,14 @@ def gen_case(rng, nmax, malformed=False):
                                    else [rng.randrange(1, 33) / 8.0 for _ in range(n)])
     functional = rng.choice(["mean", "mean", "median", "expectile", "quantile"])
     level = rng.choice(DYADIC_LEVELS * 2 + DECIMAL_LEVELS)
-    d = dict(y=y, models=models, two_d=(nm > 1 or rng.random() < 0.2), w=w, functional=functional, level=level, feat=fd)
+    names = None
+    if 2 <= nm <= 3 and rng.random() < 0.45:
+        # y_pred as a polars DataFrame whose column names are NOT in ascending order
+        names = rng.sample(MODEL_NAMES, nm)
+        if names == sorted(names):
+            names.reverse()
+    d = dict(y=y, models=models, two_d=(nm > 1 or rng.random() < 0.2), names=names, w=w, functional=functional,
+             level=level, feat=fd)
     if malformed:
         if rng.random() < 0.6 or fd is None:
             d["functional"] = rng.choice(["expectile", "quantile"])
@@ -429,10 +478,21 @@ FIXED = [
 ]
 
 
+FIXED += [
+    dict(y=[0.0, 1.0, 2.0, 3.0], models=[[1.0, 1.0, 1.0, 1.0], [0.0, 1.0, 2.0, 3.0], [3.0, 3.0, 0.0, 0.0]], two_d=True,
+         names=["zeta", "alpha", "mid"], w=None, functional="mean", level=0.5, feat=None),
+    dict(y=[0.0, 1.0, 2.0, 3.0], models=[[1.0, 1.0, 1.0, 1.0], [0.0, 1.0, 2.0, 3.0], [3.0, 3.0, 0.0, 0.0]], two_d=True,
+         names=["zeta", "alpha", "mid"], w=[1.0, 2.0, 1.0, 2.0], functional="median", level=0.5,
+         feat=dict(ftype="str", values=["a", "b", "a", "b"], n_bins=3, method="quantile")),
+    dict(y=[0.0, 1.0, 2.0], models=[[float(j), 1.0, float(12 - j)] for j in range(12)], two_d=True, names=None, w=None,
+         functional="mean", level=0.5, feat=None),
+]
+
+
 def clause_class(cl):
     if cl.startswith("inf_only: "):
         return "inf_only: " + clause_class(cl[len("inf_only: "):])
-    for key in ("not accepted", "bias_count", "bias_weights", "bias_mean", "bias_stderr", "p_value", "counts sum",
+    for key in ("model labels", "model blocks", "not accepted", "bias_count", "bias_weights", "bias_mean", "bias_stderr", "p_value", "counts sum",
                 "weights do not", "weight-averaged", "null", "repeated", "row order", "NaN edges", "output rows", "label"):
         if key in cl:
             return key + (": " + cl.split(" raised ")[1].split(":")[0] + "/" + cl.split(" column")[0].split(": ")[1]
@@ -463,6 +523,8 @@ def minimise(d, fails):
         for k in range(len(cur["models"])):
             c = json.loads(json.dumps(cur))
             c["models"] = [cur["models"][k]]
+            if cur.get("names"):
+                c["names"] = [cur["names"][k]]
             try:
                 if fails(c):
                     cur = c
@@ -521,6 +583,7 @@ def main():
             stats["fn_" + d["functional"]] = stats.get("fn_" + d["functional"], 0) + 1
             stats["models_%d" % len(d["models"])] = stats.get("models_%d" % len(d["models"]), 0) + 1
             stats["weighted"] = stats.get("weighted", 0) + (d["w"] is not None)
+            stats["named_models"] = stats.get("named_models", 0) + bool(d.get("names"))
             stats["errors"] = stats.get("errors", 0) + (obs[0] == "err")
             bad = judge_case(d, obs, deep=(len(cases) % 5 == 0))
             report(found, d, bad, obs)
@@ -569,6 +632,12 @@ def main():
                 if tried < (2 * budget) // 3:
                     consider(dict(y=[0.0, 1.0, 1.0, 2.0], models=[[1.0, 1.0, 0.0, 0.0]], two_d=False, w=[1.0, 2.0, 1.0, 2.0],
                                   functional="mean", level=0.5, feat=dict(ftype=ft, values=list(vals), n_bins=2, method="quantile")))
+        for names in itertools.permutations(["zeta", "alpha", "mid"]):
+            for ft in (None, dict(ftype="str", values=["a", "b", "a"], n_bins=3, method="quantile")):
+                consider(dict(y=[0.0, 1.0, 2.0], models=[[1.0, 1.0, 1.0], [0.0, 1.0, 2.0], [3.0, 0.0, 0.0]], two_d=True,
+                              names=list(names), w=None, functional="mean", level=0.5, feat=ft))
+        consider(dict(y=[0.0, 1.0], models=[[float(j), 1.0] for j in range(11)], two_d=True, names=None, w=None,
+                      functional="mean", level=0.5, feat=None))
         rng = random.Random(seed)
         while tried < budget:
             consider(gen_case(rng, 12))
